@@ -135,6 +135,7 @@ def run(ctx: Ctx) -> None:
                              "call_sites": eng.call_sites, "fixpoint_rounds": eng.rounds, "blocker_sites_seen": sorted(eng.blocker_sites),
                              "buffer_attributes_blocked": {f"{k[0]}.{k[1]}": v for k, v in eng.state.items() if v}}
     ctx.floor(rule, 450)
+    guard_placement(ctx, FUNC_MODULES + [m for m in CLASS_MODULES if m in ctx.prog.modules])
 
 
 def mutants(prog):
@@ -164,6 +165,8 @@ def mutants(prog):
         ("ssd via float()", LF, "ssd_loss", "loss = reduce_loss(loss, reduction, mask)", "loss = reduce_loss(loss, reduction, mask) * float(loss.mean()) / float(loss.mean())", "ssd_loss"),
         ("lcc local mean detached", LF, "lcc_loss", "x = source.sub(source_mean)", "x = source.sub(source_mean.detach())", "lcc_loss"),
         ("bspline evaluation .data", BS, "evaluate_cubic_bspline", "output = data\n", "output = data.data\n", "evaluate_cubic_bspline"),
+        ("wlcc epsilon after sqrt", LF, "wlcc_loss", "loss = a.square_().div_(b.mul_(c).add_(epsilon)).neg_().add_(1)", "loss = a.div_(b.mul_(c).sqrt().add(epsilon)).square_().neg_().add_(1)", "E8.guard-placement"),
+        ("ncc epsilon after sqrt", LF, "ncc_loss", "RETURN", "RETURN", "SKIP"),
         ("homogeneous_transform rounds", "deepali.core.linalg", "homogeneous_transform", "return ", "return torch.round(", "SKIP"),
     ]
     for name, mod, fn, old, new, expect in specs:
@@ -171,3 +174,68 @@ def mutants(prog):
             continue
         ov = source_sub(prog, mod, fn, old, new)
         yield (name if ov is not None else name + " [spec does not apply]", ov, expect)
+
+
+# ------------------------------------------------------------------------------------------------ guard placement
+SINGULAR = {"sqrt", "rsqrt", "log", "log2", "log10", "acos", "asin", "atanh", "reciprocal"}
+
+
+def _is_singular_call(e: ast.AST) -> bool:
+    if isinstance(e, ast.Call):
+        f = e.func
+        name = f.attr if isinstance(f, ast.Attribute) else (f.id if isinstance(f, ast.Name) else "")
+        if name in SINGULAR:
+            return True
+        if name in ("pow", "pow_") and e.args and isinstance(e.args[-1], ast.Constant) and isinstance(e.args[-1].value, float) and 0 < e.args[-1].value < 1:
+            return True
+    if isinstance(e, ast.BinOp) and isinstance(e.op, ast.Pow) and isinstance(e.right, ast.Constant) and isinstance(e.right.value, float) \
+            and 0 < e.right.value < 1:
+        return True
+    return False
+
+
+def _is_epsilon(e: ast.AST) -> bool:
+    if isinstance(e, ast.Name):
+        return "eps" in e.id.lower()
+    if isinstance(e, ast.Attribute):
+        return "eps" in e.attr.lower()
+    if isinstance(e, ast.Constant) and isinstance(e.value, float):
+        return 0 < e.value <= 1e-3
+    return False
+
+
+def misplaced_guards(tree: ast.AST):
+    """``sqrt(x) + eps`` / ``x.sqrt().add(eps)``: the epsilon guards the *value* (division by zero) but not the derivative of
+    the singular operation at 0, which is what makes gradients non-finite; the guard belongs to the argument."""
+    for n in ast.walk(tree):
+        if isinstance(n, ast.BinOp) and isinstance(n.op, ast.Add):
+            if (_is_singular_call(n.left) and _is_epsilon(n.right)) or (_is_singular_call(n.right) and _is_epsilon(n.left)):
+                yield n
+        elif isinstance(n, ast.Call) and isinstance(n.func, ast.Attribute) and n.func.attr in ("add", "add_") and n.args \
+                and _is_singular_call(n.func.value) and _is_epsilon(n.args[0]):
+            yield n
+
+
+def guard_placement(ctx: Ctx, modules) -> None:
+    rule = "E8.guard-placement"
+    ctx.rule(rule, "an epsilon meant to guard a singular operation (sqrt, rsqrt, log, acos, asin, atanh, fractional power) is added to its "
+                   "argument, not to its result: `sqrt(x) + eps` keeps the value finite but not the derivative at x = 0 (NaN gradients "
+                   "through 0 * inf), which violates the finite-gradient clause wherever x can vanish (e.g. under masks)")
+    # positive control: the matcher must recognise both spellings of the pattern
+    probe = ast.parse("def f(a, b, eps):\n    y = a.div(b.sqrt().add(eps))\n    z = torch.sqrt(b) + eps\n    w = (b + eps).sqrt()\n    return y, z, w\n")
+    ctx.require(len(list(misplaced_guards(probe))) == 2, "positive control failed: E8.guard-placement matcher does not fire on its own example")
+    n = 0
+    for mod in modules:
+        mi = ctx.prog.module(mod)
+        funcs = list(mi.functions.values()) + [m for c in mi.classes.values() for m in c.methods.values()]
+        for fi in funcs:
+            if fi.overloads and fi.node in fi.overloads:
+                continue
+            n += 1
+            hits = list(misplaced_guards(fi.node))
+            for h in hits:
+                ctx.report(rule, fi, f"expr={' '.join(ast.unparse(h).split())[:80]}",
+                           f"{fi.qualname}(): epsilon is added after the singular operation in `{ast.unparse(h)[:80]}`; the derivative "
+                           f"is unbounded where the argument vanishes", node=h)
+            ctx.ob(rule, fi.key, not hits)
+    ctx.floor(rule, 100)
